@@ -35,6 +35,7 @@ func init() {
 			ruleRequestPathIsMatched(c, "R10")
 			ruleGroupRejectionUndo(c, "R11")
 			ruleStrictValidated(c, "R12")
+			ruleInternalKeyIsNotAMethod(c, "R14")
 		},
 	})
 }
